@@ -34,12 +34,12 @@ CHECKS = {
                 text="seeded search over operation sequences, byte-stream fragmentations and thread/loop interleavings; the component-level cut enumeration of 1-3 frames into up to 3 reads is exhaustive",
                 note="kernel TCP, selector and OS scheduler are models (in-order lossless pipes; baton passing); a clean batch is evidence, not proof"),
     "C14": dict(level="exploration", engine="world+simloop+simnet", ref="4/C14",
-                technique="deterministic simulation with fault injection: concurrent callers against the real server and a scripted adversarial peer; connection cut (FIN/RST) at every byte class of a frame and every point of the call sequence; quiescence-based hang detection",
-                text="seeded search over response arrival orders, fragmentations, cut positions/kinds and interleavings (optionally line-level pre-emption inside sys_fn_ipc.py); liveness judged at quiescence after the last fault, never by wall clock",
-                note="TCP guarantees (order, no loss/duplication inside a live connection) are kept; silent stalls without close are not injected (klongpy has no timeouts and the property does not promise any)"),
+                technique="deterministic simulation with fault injection: concurrent callers in both directions of a connection against the real server and a scripted adversarial peer; connection cut (FIN/RST/ETIMEDOUT) or stall at every byte class of a frame and every point of the call sequence; close and server shutdown racing; source-line pre-emption concentrated in the clean-up of the pending table; quiescence-based hang detection; at-most-once oracle on serving-side effects",
+                text="seeded search over response arrival orders, fragmentations, cut/stall positions and kinds and interleavings (line-level pre-emption inside sys_fn_ipc.py, uniformly and concentrated in named functions); liveness judged at quiescence after the last fault, never by wall clock",
+                note="TCP guarantees (order, no loss/duplication inside a live connection) are kept; a stall is a finite delay (klongpy has no timeouts and the property does not promise any); sockets are closed when connection_lost runs on the owning loop, as asyncio does"),
     "C15": dict(level="exploration", engine="world+simloop", ref="4/C15",
-                technique="deterministic simulation on a virtual-time event loop: seeded callback scripts, start times, external cancellations and per-deadline dispatch latency; reference model of an ideal periodic timer over the recorded tick log",
-                text="seeded search over callback scripts x intervals x awkward start times x dispatch latencies (exact / early within clock resolution / late) x cancellation times",
+                technique="deterministic simulation on a virtual-time event loop: seeded callback scripts, start times, external cancellations (from the loop and, in the xthread configuration, from another thread with source-line pre-emption inside the periodic runner) and per-deadline dispatch latency; reference model of an ideal periodic timer over the recorded tick log, overlap-aware for cross-thread cancellations",
+                text="seeded search over callback scripts x intervals (literal and computed) x awkward start times x dispatch latencies (exact / early within clock resolution / late) x cancellation times and threads x re-creation of a timer after its death",
                 note="tolerance of one clock resolution + 4 ulp on boundaries; behaviour after a raising callback is unspecified and only checked for early/double ticks"),
     "C16": dict(level="exploration", engine="world+simfs", ref="4/C16",
                 technique="deterministic simulation of the store over an in-memory file system with scheduler-owned worker tasks and virtual LRU clock; sequential histories with reopen/unload/eviction checked against a dictionary model plus cache invariants after every operation",
